@@ -395,35 +395,58 @@ def _backward_parents(db, chk, cg, rule):
 
 def _backward(db, chk, cs, cg, rule="C13.R4-backward-attachment"):
     f = cg.func("CallGraph._connect_stacks")
-    sel = H.find_match("self.mapping['label'].isin(['bwd', 'main'])", f) + H.find_match("self.mapping['label'].isin(['main', 'bwd'])", f)
-    srt = [c for c in H.calls(f) if isinstance(c.func, ast.Attribute) and c.func.attr == "sort_values" and (lit(c.args[0]) if c.args else lit(H.kwarg(c, "by"))) in ("label", ["label"])
-           and lit(H.kwarg(c, "ascending"), True) is True]
-    guard = H.find_match("$st.shape[0] == 2", f) + H.find_match("len($st) == 2", f)
-    link = [c for c in H.calls(f) if isinstance(c.func, ast.Attribute) and c.func.attr == "_link_main_and_bwd_stacks"]
-    ok = False
-    if len(sel) == 1 and len(srt) == 1 and len(guard) >= 1 and len(link) == 1 and len(link[0].args) == 2:
-        mn, bw = (H.name_id(a_) for a_ in link[0].args)
-        dm = [ast.unparse(v) for t, v, s_ in H.assignments(f) if H.name_id(t) == mn]
-        dbw = [ast.unparse(v) for t, v, s_ in H.assignments(f) if H.name_id(t) == bw]
-        idx_var = None
-        for t, v, s_ in H.assignments(f):
-            if H.match("$st['stack_index'].to_list()", v) is not None or H.match("$st['stack_index'].tolist()", v) is not None:
-                idx_var = H.name_id(t)
-        ok = idx_var is not None and dm == [f"self.call_stacks[{idx_var}[1]]"] and dbw == [f"self.call_stacks[{idx_var}[0]]"]
-    # the candidate stacks are THIS rank's: the selection mask is  rank == <rank parameter>  &  label in {bwd, main}
-    def conj(e):
-        return conj(e.left) + conj(e.right) if isinstance(e, ast.BinOp) and isinstance(e.op, ast.BitAnd) else [e]
-    masks = [n.slice for n in ast.walk(f) if isinstance(n, ast.Subscript) and any(x is sel[0][0] for x in ast.walk(n.slice))] if len(sel) == 1 else []
+    # decided by evaluating _connect_stacks on a symbolic stack mapping: when the link is made and which two stacks it is given
+    MAP, RANK = ("param", "MAP"), T.P("RANK")
+    links = []
+
+    def hook(I, name, pos, kw, node):
+        if name.endswith("_link_main_and_bwd_stacks"):
+            links.append((list(I.run.path), [to_term(p_) for p_ in pos], {k: to_term(v) for k, v in kw.items()}))
+            return None
+        return NotImplemented
+    hp_ = [p_ for p_ in H.param_names(cg.func("CallGraph._link_main_and_bwd_stacks")) if p_ != "self"]
     rank_param = next((p_ for p_ in H.param_names(f) if p_ != "self"), None)
-    okr = None
-    if masks:
-        parts = conj(masks[0])
-        rk = [p_ for p_ in parts if H.match(f"self.mapping['rank'].eq({rank_param})", p_) is not None or H.match(f"self.mapping['rank'] == {rank_param}", p_) is not None]
-        okr = len(parts) == 2 and len(rk) == 1
-    chk.ob(rule, "the two stacks are selected among the stacks of the rank being built (rank == <rank> & label in {bwd, main})", okr, cg.loc(f), found=[ast.unparse(m_)[:160] for m_ in masks],
+    try:
+        runs = [r for r in Interp(db, call_hook=hook).explore(f"{CG}:CallGraph._connect_stacks", lambda I: {"self": Obj("self", cls=(cg, "CallGraph"), attrs={"mapping": Frame(MAP), "call_stacks": T.P("STACKS")}), rank_param: RANK})
+                if r.raised is None]
+    except AnalysisError:
+        runs = []
+    chk.analysed_add("functions", f"{CG}:CallGraph._connect_stacks")
+    okr = ok = None
+    found_sel, found_link = None, None
+    if len(runs) == 2 and len(links) == 1 and len(links[0][0]) == 1 and len(hp_) >= 2:
+        cond, pos, kw = links[0]
+        bound = dict(zip(hp_, pos))
+        bound.update(kw)
+        mainv, bwdv = bound.get(hp_[0]), bound.get(hp_[1])
+        # the guard: exactly two selected rows
+        c0 = cond[0]
+        nr = [x for x in T.subterms(c0) if isinstance(x, tuple) and len(x) == 2 and x[0] == "nrows"]
+        ctx = nr[0][1] if len(nr) == 1 else None
+        two = ctx is not None and c0 == T.cmp("==", ("nrows", ctx), T.C(2))
+        if ctx is not None and ctx[0] == MAP:
+            try:
+                tt = {(rk, lb): bool(T.evaluate(ctx[1], lambda leaf, rk=rk, lb=lb: rk if leaf == T.col(MAP, "rank") else lb if leaf == T.col(MAP, "label") else 3 if leaf == RANK else (_ for _ in ()).throw(T.Unknown(leaf))))
+                      for rk in (3, 4) for lb in ("bwd", "main", "other")}
+            except T.Unknown:
+                tt = None
+            found_sel = T.show(ctx[1])[:200]
+            if tt is not None:
+                okr = tt == {(rk, lb): (rk == 3 and lb in ("bwd", "main")) for rk in (3, 4) for lb in ("bwd", "main", "other")}
+            order = ctx[2]
+            by_label = isinstance(order, tuple) and order and order[0] == "sort" and tuple(order[1]) == (T.col(MAP, "label"),) and order[2] in (True, (True,))
+            idx = ("tolist", T.col(MAP, "stack_index"), ctx)
+            want_main, want_bwd = ("getitem", T.P("STACKS"), ("getitem", idx, T.C(1))), ("getitem", T.P("STACKS"), ("getitem", idx, T.C(0)))
+            found_link = {"guard": T.show(c0)[:160], "order": T.show_order(order), "main": T.show(mainv)[:120] if mainv is not None else None, "bwd": T.show(bwdv)[:120] if bwdv is not None else None}
+            if mainv == want_main and bwdv == want_bwd and by_label and two:
+                ok = True
+            elif (mainv == want_bwd and bwdv == want_main) or (isinstance(order, tuple) and order and order[0] == "sort" and tuple(order[1]) == (T.col(MAP, "label"),) and order[2] in (False, (False,))) or \
+                    (ctx is not None and not two and c0[0] == "cmp" and ("nrows", ctx) in T.subterms(c0)):
+                ok = False          # the two stacks swapped, label order descending, or another row count
+    chk.ob(rule, "the two stacks are selected among the stacks of the rank being built (rank == <rank> & label in {bwd, main})", okr, cg.loc(f), found=found_sel or f"{len(runs)} path(s), {len(links)} link call(s)",
            accepted="self.mapping['rank'].eq(rank) & self.mapping['label'].isin(['bwd', 'main'])", why="without the rank condition the selection holds the stacks of all ranks built so far: from the second rank on it never has exactly two rows and nothing is attached")
     chk.ob(rule, "attachment only when the rank has exactly one main and one bwd stack; sorted by label so that index 0 is bwd and 1 is main", ok, cg.loc(f),
-           found=[ast.unparse(s)[:120] for s in f.body], accepted="label isin [bwd, main] sorted by label ascending; shape[0] == 2; bwd = stack [0], main = stack [1]")
+           found=found_link or f"{len(runs)} path(s), {len(links)} link call(s)", accepted="label isin [bwd, main] sorted by label ascending; shape[0] == 2; bwd = stack [0], main = stack [1]")
     _backward_parents(db, chk, cg, rule)
     h = cg.func("CallGraph._link_main_and_bwd_stacks")
     calls = [c for c in walk_no_nested(h) if isinstance(c, ast.Call) and isinstance(c.func, ast.Attribute) and c.func.attr == "update_parent_of_first_layer_nodes"]
@@ -602,30 +625,58 @@ def check_recompute_before_publish(db, chk, rule: str) -> None:
 
 def check_move_is_complete(db, chk, rule: str) -> None:
     """CallStackGraph._update_parent moves nodes: (1) child.parent = new parent, (2) new parent's children gain them, (3) each OLD parent's
-    children list loses them (written back), so that every node is listed under exactly one parent when depths are recomputed."""
+    children list loses them (written back), so that every node is listed under exactly one parent when depths are recomputed.
+    Decided by abstract runs of the method on small concrete node maps: the state of the map afterwards."""
     cs = db.mod(CS)
     f = cs.func("CallStackGraph._update_parent")
     where = cs.loc(f)
     ps = [p_ for p_ in H.param_names(f) if p_ != "self"]
-    newp = ps[1] if len(ps) == 2 else None
-    parent_stores = [n for n in ast.walk(f) if isinstance(n, ast.Assign) and any(H.match("self.nodes[$i].parent", t) is not None for t in n.targets)]
-    ok1 = newp is not None and len(parent_stores) == 1 and H.name_id(parent_stores[0].value) == newp
-    gains = [c for c in ast.walk(f) if isinstance(c, ast.Call) and isinstance(c.func, ast.Attribute) and c.func.attr in ("extend", "append") and H.match(f"self.nodes[{newp}].children", c.func.value) is not None]
-    # removals: a mutation of self.nodes[<p>].children for a p other than the new parent
-    losses = []
-    for n in ast.walk(f):
-        if isinstance(n, ast.Call) and isinstance(n.func, ast.Attribute) and n.func.attr in ("remove", "pop", "clear") and H.match("self.nodes[$p].children", n.func.value) is not None:
-            losses.append(n)
-        if isinstance(n, ast.Assign) and any(H.match("self.nodes[$p].children", t) is not None or H.match("self.nodes[$p].children[:]", t) is not None for t in n.targets):
-            losses.append(n)
-        if isinstance(n, ast.Delete) and any(H.match("self.nodes[$p].children[$$i]", t) is not None for t in n.targets):
-            losses.append(n)
-    losses = [l for l in losses if newp not in {x.id for x in ast.walk(l.func.value if isinstance(l, ast.Call) else l.targets[0]) if isinstance(x, ast.Name)}]
-    chk.ob(rule, "a moved node's parent becomes the new parent", ok1, where, found=[ast.unparse(x) for x in parent_stores], accepted=f"self.nodes[idx].parent = {newp}")
-    chk.ob(rule, "the new parent's children gain the moved nodes", len(gains) == 1, where, found=[ast.unparse(x) for x in gains], accepted=f"self.nodes[{newp}].children.extend(<moved>)")
-    chk.ob(rule, "every old parent's children list loses the moved nodes (the list itself is updated)", len(losses) >= 1, where, found=[ast.unparse(x)[:100] for x in losses] or "no write to an old parent's children",
-           accepted="self.nodes[p].children.remove(c) for the moved c (or an assignment of the filtered list)",
-           why="a node that stays listed under its old parent is reached twice by the depth recomputation and keeps the depth of the stale path")
+    chk.analysed_add("functions", f"{CS}:CallStackGraph._update_parent (abstract runs)")
+    if len(ps) != 2:
+        chk.ob(rule, "_update_parent(self, <nodes>, <new parent>)", None, where, found=ps)
+        return
+    # (node map: index -> (parent, children)), the nodes to move, the new parent
+    scenarios = (
+        ("two first-layer nodes under a third", {-1: (-2, [1, 2, 5]), 1: (-1, []), 2: (-1, []), 5: (-1, [])}, [1, 2], 5),
+        ("nodes of two different parents", {-1: (-2, [1, 2, 5]), 1: (-1, [3, 4]), 2: (-1, []), 5: (-1, []), 3: (1, []), 4: (1, [])}, [2, 3], 5),
+        ("a node that is already a child of the new parent, and an unknown index", {-1: (-2, [1, 5]), 1: (-1, []), 5: (-1, [2]), 2: (5, [])}, [1, 2, 99], 5),
+    )
+    res = {"parent": [], "gain": [], "loss": []}
+    for tag, spec, moved, newp in scenarios:
+        state = {}
+
+        def args(I, spec=spec, moved=moved, newp=newp):
+            nodes = {k: Obj(f"node{k}", attrs={"parent": p_, "children": list(ch), "depth": 0, "height": 0, "device": ("enum", "DeviceType", "CPU")}) for k, (p_, ch) in spec.items()}
+            state["nodes"] = nodes
+            return {"self": Obj("self", cls=(cs, "CallStackGraph"), attrs={"nodes": nodes, "root_index": -1}), ps[0]: list(moved), ps[1]: newp}
+        try:
+            runs = [r for r in Interp(db).explore(f"{CS}:CallStackGraph._update_parent", args) if r.raised is None]
+        except AnalysisError:
+            runs = []
+        nodes = state.get("nodes")
+        concrete = len(runs) == 1 and not runs[0].path and nodes is not None and all(
+            isinstance(n.attrs.get("parent"), int) and isinstance(n.attrs.get("children"), list) and all(isinstance(c, int) and not isinstance(c, bool) for c in n.attrs["children"]) for n in nodes.values())
+        if not concrete:
+            for k in res:
+                res[k].append((tag, None, "the run did not end in one concrete node map"))
+            continue
+        really = [c for c in moved if c in spec and c not in spec[newp][1]]          # known nodes that are not yet children of the new parent
+        after = {k: (n.attrs["parent"], list(n.attrs["children"])) for k, n in nodes.items()}
+        bad_p = {c: after[c][0] for c in really if c in after and after[c][0] != newp}
+        res["parent"].append((tag, not bad_p and all(c in after for c in really), bad_p or "ok"))
+        kids = after[newp][1] if newp in after else []
+        want_kids = sorted(spec[newp][1] + really)
+        res["gain"].append((tag, sorted(kids) == want_kids, {"children of the new parent": kids, "expected (any order)": want_kids}))
+        stale = {k: [c for c in ch if c in really] for k, (_p, ch) in after.items() if k != newp and any(c in really for c in ch)}
+        res["loss"].append((tag, not stale, stale or "ok"))
+    texts = {"parent": ("a moved node's parent becomes the new parent", None),
+             "gain": ("the new parent's children gain the moved nodes (each exactly once; the children it had stay)", None),
+             "loss": ("every old parent's children list loses the moved nodes (the list itself is updated)",
+                      "a node that stays listed under its old parent is reached twice by the depth recomputation and keeps the depth of the stale path")}
+    for k, (txt, why) in texts.items():
+        vs = [v for _t, v, _d in res[k]]
+        verdict = False if any(v is False for v in vs) else (None if any(v is None for v in vs) else True)
+        chk.ob(rule, txt, verdict, where, found=[{"scenario": t_, "state": d_} for t_, v, d_ in res[k] if v is not True] or f"holds in {len(vs)} scenarios", accepted="holds in every scenario", **({"why": why} if why else {}))
     chk.floor(rule, 3)
 
 
